@@ -12,7 +12,13 @@ ASSUMPTIONS = ["reference: harness/ref.py with Fractions: add/sub/neg and multip
                "augmented assignment (`t = a; t += x`, also -=, *=, /=, //=, %=; instruction `iop`) is applied to a SECOND REFERENCE of a "
                "fixed-point (or integer / boolean, with a fixed-point operand) value and followed by reads of the original: the reference "
                "treats values as immutable, the model maps `iop` to the binary operator (no class of the modelled tree defines __iadd__ "
-               "& co, so Python evaluates t = t + x)"]
+               "& co, so Python evaluates t = t + x)",
+               "Python int operands and inputs are converted by the reference with Fraction(n) (exact for every size, never through a float); "
+               "the large-integer scenario keeps |n|*2^r below 2^(bitlength-2) so that comparisons and quotients stay inside the bitlength; "
+               "val() is only requested where the expected value is a double (below 2^53)",
+               "asserting comparisons (assert_lt/le/eq/ne/gt/ge, assert_range = [lo, hi)) are judged on the represented numbers of receiver "
+               "and arguments: a call that returns although the relation is false is a violation, a call that raises is not (the integer "
+               "type refuses fixed-point and boolean arguments with RuntimeError: allowed by the statement's `or the operation raises`)"]
 PARTIAL = ["C14_program (program level) is for completing runs inside FxpFragment (Spec/FxpProg.lean, table Instr.fxExcl); excluded with reason: "
            "guardRegion, ignoreErrors (set ign), resAfterFxp (set res while a fixed-point value exists: values are not rescaled), "
            "secretShift (finding C05-secret-exponent-mod-p), fxpPow, "
@@ -79,15 +85,199 @@ def fx_case(rnd, cid, p=common.BN128):
     return progs.Case(cid, cfg, b.ins, {"shape": "fxp", "op": op, "kinds": ka + kb, "malformed": False})
 
 
+# ------------------------------------------------------------------ large integer operands / inputs (exact scaling of Python ints)
+def big_int(rnd, lim_bits):
+    """a Python int that is NOT a double: more than 53 significant bits (2^53+1, 3^40+2, around 2^64, up to `lim_bits` bits), or
+    one of the controls next to it (2^53, 2^53-1); either sign"""
+    lim_bits = max(lim_bits, 56)
+    c = rnd.random()
+    if c < 0.18:
+        v = rnd.choice([2 ** 53 + 1, 3 ** 40 + 2, 2 ** 53 + 3, 2 ** 54 + 1, 2 ** 54 + 2, 2 ** 64 + 1, 2 ** 64 - 1, 2 ** 63 + 1, 10 ** 17 + 1,
+                        (2 ** 53 + 1) * 3, 2 ** 53, 2 ** 53 - 1])
+    elif c < 0.36:
+        k = rnd.randrange(54, lim_bits)
+        v = (1 << k) + rnd.choice([1, 3, -1, 1 << rnd.randrange(0, k - 53), rnd.randrange(1, 1 << (k - 53))])
+    elif c < 0.5:
+        v = (1 << 64) + rnd.randrange(-(1 << 10), 1 << 10) * 2 + 1
+    else:
+        v = rnd.getrandbits(rnd.randrange(54, lim_bits + 1)) | 1 | (1 << 53)
+    if v.bit_length() > lim_bits:
+        v = (v & ((1 << lim_bits) - 1)) | 1 | (1 << (lim_bits - 1))
+    return -v if rnd.random() < 0.3 else v
+
+
+def bigint_case(rnd, cid, p=common.BN128):
+    """one fixed-point operation whose Python-int operand or input has more than 53 significant bits: `PrivValFxp(n)` / `PubValFxp(n)`,
+    `x op n`, `n op x` for every operator, followed by a read-back / a subtraction that cancels the large part / a comparison with a
+    neighbour.  The reference converts ints with Fraction(n): never through a float."""
+    res = rnd.choice([0, 1, 3, 8, 8, 12])
+    bl = rnd.choice([96, 128, 160, 200]) + res
+    cfg = {"p": p, "bl": bl, "res": res, "ign": 0}
+    b = progs.Builder(rnd, cfg)
+    room = bl - res - 3                    # |n| * 2^res stays below 2^(bl-2): comparisons and quotients are inside the bitlength
+    shape = rnd.choice(["input", "input", "operand", "operand", "operand", "roperand", "roperand", "near"])
+    op = rnd.choice(FX_OPS)
+    def small_fx(nonzero=False):
+        m = rnd.randrange(-200, 201) or 1
+        return b.emit(f"mk {rnd.choice(progs.X_KINDS)} r{b.flt_lit(m, rnd.choice([0, 1, res]) if res else 0)}", "X")
+    if shape == "input":
+        n = big_int(rnd, room)
+        x = b.emit(f"mk {rnd.choice(progs.X_KINDS)} r{b.int_lit(n)}", "X")
+        c = rnd.random()
+        if c < 0.3:
+            b.emit(f"un neg r{x}", "?")     # (val() of a number that is not a double is outside the reference: floats are exact below 2^53)
+        elif c < 0.6:
+            # cancel the large part: what is left is small and exact (and reads back as a float below 2^53)
+            d = b.emit(f"bin sub r{x} r{b.int_lit(n - rnd.randrange(-3, 4))}", "?")
+            b.emit(f"call val r{d}", "?")
+        elif c < 0.8:
+            b.emit(f"bin {rnd.choice(progs.CMPS)} r{x} r{b.int_lit(n + rnd.choice([-1, 0, 1]))}", "?")
+        else:
+            o = small_fx(); b.emit(f"bin {rnd.choice(['add', 'sub'])} r{x} r{o}", "?")
+        kinds = "I"
+        op = "mk"
+    elif shape in ("operand", "roperand"):
+        if op in ("mul",):
+            n = big_int(rnd, min(room, 70))
+        else:
+            n = big_int(rnd, room)
+        if op in ("truediv", "floordiv", "mod") and shape == "operand" and rnd.random() < 0.8:
+            n = abs(n)                      # negative divisors raise (recorded for the integer type); keep most divisors positive
+        x_small = rnd.random() < 0.5
+        if x_small:
+            x = small_fx()
+        else:
+            # a fixed-point operand of the same magnitude (built from a float below 2^53 times a power of two, or from the int itself)
+            x = b.emit(f"mk {rnd.choice(progs.X_KINDS)} r{b.int_lit(n + rnd.randrange(-2, 3) if rnd.random() < 0.6 else big_int(rnd, room))}", "X")
+        i = b.int_lit(n)
+        rr = b.emit(f"bin {op} r{x} r{i}" if shape == "operand" else f"bin {op} r{i} r{x}", "?")
+        c = rnd.random()
+        if c < 0.25 and op not in progs.CMPS:
+            b.emit(f"un neg r{rr}", "?")
+        elif c < 0.6 and op in ("add", "sub"):
+            # undo the large operand again with an int next to it
+            back = b.emit(f"bin {'sub' if (op == 'add') else 'add'} r{rr} r{b.int_lit(n + rnd.choice([0, 0, 1, -1]))}", "?")
+            b.emit(f"call val r{back}" if x_small else f"un neg r{back}", "?")
+        kinds = "XI" if shape == "operand" else "IX"
+    else:
+        # comparison of a large fixed-point value with the int one unit away (both orders), and of a large int secret with it
+        n = big_int(rnd, room)
+        op = rnd.choice(progs.CMPS)
+        frac = rnd.randrange(0, 1 << res) if res else 0
+        x = b.emit(f"mk {rnd.choice(progs.X_KINDS)} r{b.int_lit(n)}", "X")
+        if frac and rnd.random() < 0.5:
+            x = b.emit(f"bin add r{x} r{b.flt_lit(frac, res)}", "X")
+        m = n + rnd.choice([-1, 0, 0, 1])
+        if rnd.random() < 0.4:
+            o = b.emit(f"mk {rnd.choice(['priv', 'pub'])} r{b.int_lit(m)}", "L"); kinds = "XL"
+        else:
+            o = b.int_lit(m); kinds = "XI"
+        if rnd.random() < 0.5:
+            b.emit(f"bin {op} r{x} r{o}", "?")
+        else:
+            b.emit(f"bin {op} r{o} r{x}", "?"); kinds = kinds[::-1]
+    return progs.Case(cid, cfg, b.ins, {"shape": "fxp-bigint", "op": op, "kinds": kinds, "malformed": False, "form": shape})
+
+
+# ------------------------------------------------------------------ asserting comparisons across kinds
+ASSERT_REL = {"assert_lt": lambda x, y: x < y, "assert_le": lambda x, y: x <= y, "assert_eq": lambda x, y: x == y,
+              "assert_ne": lambda x, y: x != y, "assert_gt": lambda x, y: x > y, "assert_ge": lambda x, y: x >= y}
+
+
+def mixed_assert_case(rnd, cid, p=common.BN128):
+    """`a.assert_lt/le/eq/ne/gt/ge(b)` and `a.assert_range(lo, hi)` with receiver and arguments of DIFFERENT kinds: an integer secret
+    asserting against a fixed-point or boolean value, a fixed-point value asserting against an integer secret / int / float / boolean.
+    Values are at most a few units in the last place apart and of either sign, so that comparing the wrong representation (scaled
+    against unscaled) gives another answer than the represented numbers."""
+    res = rnd.choice([1, 2, 4, 8, 8, 12])
+    bl = rnd.choice([16, 24, 32, 48]) + res
+    cfg = {"p": p, "bl": bl, "res": res, "ign": 0}
+    b = progs.Builder(rnd, cfg)
+    one = 1 << res
+    ka = rnd.choice(["L", "L", "L", "X"])
+    v = rnd.randrange(-40, 41)                                   # the receiver's number (an integer for L; X adds a fraction)
+    fa = rnd.choice([0, 0, 1, one // 2, one - 1]) if ka == "X" else 0
+    def near(kind):
+        """register of kind `kind` holding a number next to v + fa/2^res"""
+        if kind == "X":
+            m = v * one + fa + rnd.choice([0, 0, 1, -1, one // 2, -(one // 2), one, -one, 3 * one, -3 * one, rnd.randrange(-2 * one, 2 * one + 1)])
+            return b.emit(f"mk {rnd.choice(progs.X_KINDS)} r{b.flt_lit(m, res)}", "X")
+        if kind == "B":
+            return b.emit(f"mk {rnd.choice(progs.B_KINDS)} r{b.int_lit(rnd.choice([0, 1]))}", "B")
+        if kind == "F":
+            return b.flt_lit(v * one + fa + rnd.choice([0, 1, -1, one // 2, -one, one]), res)
+        w = v + rnd.choice([0, 0, 1, -1, 2, -2])
+        if kind == "L":
+            return b.emit(f"mk {rnd.choice(progs.L_KINDS)} r{b.int_lit(w)}", "L")
+        return b.int_lit(w)
+    if ka == "L":
+        if rnd.random() < 0.35:
+            v = rnd.choice([0, 1, 0, 1, 2, -1])                  # next to the booleans
+        ra = b.emit(f"mk {rnd.choice(progs.L_KINDS)} r{b.int_lit(v)}", "L")
+        others = ["X", "X", "X", "B"]
+    else:
+        ra = b.emit(f"mk {rnd.choice(progs.X_KINDS)} r{b.flt_lit(v * one + fa, res)}", "X")
+        others = ["L", "I", "F", "B", "X"]
+    if rnd.random() < 0.75:
+        m = rnd.choice(progs.ASSERTS)
+        kb = rnd.choice(others)
+        rb = near(kb)
+        b.emit(f"call {m} r{ra} r{rb}", "N")
+        kinds = ka + kb
+    else:
+        m = "assert_range"
+        k1, k2 = rnd.choice([(o, rnd.choice(["I", "L", o])) for o in others] + [(rnd.choice(["I", "L"]), o) for o in others])
+        r1 = near(k1); r2 = near(k2)
+        b.emit(f"call assert_range r{ra} r{r1} r{r2}", "N")
+        kinds = ka + k1 + k2
+    return progs.Case(cid, cfg, b.ins, {"shape": "fxp-assert", "op": m, "kinds": kinds, "malformed": False})
+
+
+def judge_mixed_assert(ex, r, R):
+    """direct oracle of the asserting comparisons: the call raises, or the asserted relation holds between the REPRESENTED numbers"""
+    i = len(r.case.instrs) - 1
+    ins = r.case.instrs[i].split()
+    if len(r.regs) <= i:
+        ex.count("assert:raised")
+        return                                                  # raised (in this call or before): allowed
+    nums = [R.num(int(t[1:])) for t in ins[2:]]
+    if any(t is None for _, t in nums):
+        ex.count("assert:unjudged")
+        return
+    s = 1 << r.case.cfg["res"]
+    vals = [Fraction(int(x * s), s) if t == "flt" else Fraction(x) for x, t in nums]      # a float argument is converted by truncation
+    if ins[1] == "assert_range":
+        holds = vals[1] <= vals[0] < vals[2]
+        shown = f"{vals[1]} <= {vals[0]} < {vals[2]}"
+    else:
+        holds = ASSERT_REL[ins[1]](vals[0], vals[1])
+        shown = f"{vals[0]} {ins[1][7:]} {vals[1]}"
+    ex.count("assert:accepted-true" if holds else "assert:accepted-false")
+    if not holds:
+        sig = instr_sig(r.case, r.regs, i); sig["dev"] = "false-assertion-accepted"
+        ex.violations.append(Violation(sig, f"r{i} ({r.case.instrs[i]}) returned without raising although the relation between the represented "
+                                            f"numbers is false ({shown}; resolution {r.case.cfg['res']}; "
+                                            f"{len(r.unsat)} of {len(r.cons)} recorded constraints violated by the recorded witness)",
+                                       {"case": r.case.line(), "instruction": i}))
+
+
 def explore(ctx, extended=False, focus=None):
     ex = Exploration()
     ex.rule = ("augmented assignments (+=, -=, *=, /=, //=, %=) on a second reference of a value followed by reads of the original; one fixed-point operation per case for every operator in {+,-,*,/,//,%,<,<=,==,!=,>,>=} and every operand type "
                "combination and order among fixed-point, secret int, secret boolean, int and float, at resolutions 0,1,4,8,12, with "
                "negative and fractional values, followed by val()/a further use; compared with the Fraction reference and, at level "
-               "V, with the Lean model; distinct = (operator, kinds, resolution, error class)")
+               "V, with the Lean model; LARGE INTEGERS: Python ints with more than 53 significant bits (2^53+1, 3^40+2, around 2^64, random "
+               "up to the bitlength, both signs; controls 2^53, 2^53-1) as PrivValFxp/PubValFxp inputs and as the int operand of every "
+               "operator in both orders at bitlengths 96..200, followed by a read-back, a cancelling subtraction or a comparison with "
+               "the neighbouring int (reference: Fraction(n), never a float); ASSERTING COMPARISONS ACROSS KINDS: assert_lt/le/eq/ne/"
+               "gt/ge and assert_range called on an integer secret with fixed-point / boolean arguments and on a fixed-point value with "
+               "integer-secret / int / float / boolean / fixed-point arguments, operands a few units in the last place apart: the call "
+               "raises or the relation holds between the represented numbers; distinct = (operator, kinds, resolution, error class)")
     n = ctx.n(3600, 120000) * (3 if extended else 1)
     cases = corpus_cases("C14") + [fx_case(ctx.rnd, f"c14_{i}") for i in range(n)]
     cases += [progs.inplace_case(ctx.rnd, f"c14i_{i}", fx=True) for i in range(n // 6)]
+    cases += [bigint_case(ctx.rnd, f"c14b_{i}") for i in range(n // 6)]
+    cases += [mixed_assert_case(ctx.rnd, f"c14a_{i}") for i in range(n // 6)]
     for r in execute_all(cases):
         account(ex, r)
         correspond(ex, r, LEVELS)
@@ -98,6 +288,10 @@ def explore(ctx, extended=False, focus=None):
             continue        # the registers no longer hold what the reference (immutable values) has
         R = ref.Ref(r.case.cfg)
         R.run([t.split() for t in r.case.instrs])
+        if m.get("shape") == "fxp-assert":
+            judge_mixed_assert(ex, r, R)
+        if m.get("shape") == "fxp-bigint":
+            ex.count(f"bigint:{m.get('form')}")
         for i, got in enumerate(r.regs):
             rv = R.regs[i]
             d = None
